@@ -76,6 +76,23 @@ Definition up_authority (authority : bytes) (fields : headers) : bytes :=
   | _, _ => authority
   end.
 
+Fixpoint nodup_names (q : headers) (seen : list bytes) : bool :=
+  match q with
+  | [] => true
+  | (n, _) :: q' => is_pseudo n && negb (mem n seen) && nodup_names q' (seen ++ [n])
+  end.
+
+Lemma split_prefix (q : headers) : forall (nf acc : headers), nodup_names q (map fst acc) = true ->
+  Forall (fun f => is_pseudo (fst f) = false) nf ->
+  split_pseudo_headers (q ++ nf) acc = Some (acc ++ q, nf).
+Proof.
+  induction q as [|[n v] q IH]; intros nf acc D NP.
+  - cbn [app]. rewrite app_nil_r. apply split_regular. exact NP.
+  - cbn [nodup_names] in D. apply andb_true_iff in D as [D D3]. apply andb_true_iff in D as [D1 D2].
+    apply negb_true_iff in D2. cbn [app split_pseudo_headers]. rewrite D1, D2.
+    etransitivity; [apply IH; [rewrite map_app; exact D3 | exact NP] | rewrite <- app_assoc; reflexivity].
+Qed.
+
 Theorem format_parse_request pa n m s a p f :
   valid_method m = true -> valid_path p = true ->
   (up_authority a f <> [] -> pa (up_authority a f) = true) ->
@@ -83,14 +100,156 @@ Theorem format_parse_request pa n m s a p f :
   parse_h2_request_headers pa (format_h2_request_headers n false m s a p f)
   = Some (mkH2Req m s (up_authority a f) p (up_fields a f)).
 Proof.
-  intros VM VP PA NP. unfold format_h2_request_headers, up_fields, up_authority in *.
-  unfold parse_h2_request_headers.
+  intros VM VP PA NP. unfold up_fields, up_authority in *.
   destruct a as [|a0 a].
   - destruct (hget N_HOST f) as [hv|] eqn:HG.
-    + cbn [app split_pseudo_headers is_pseudo P_METHOD P_SCHEME P_PATH P_AUTHORITY byte_eqb fst map mem existsb bytes_eqb].
-      change (Byte.eqb x3a COLON) with true. cbv iota.
-      repeat (cbn [app split_pseudo_headers is_pseudo fst map]; change (Byte.eqb x3a COLON) with true; cbv iota).
-      admit.
-    + admit.
-  - admit.
-Abort.
+    + set (q := [(P_METHOD, m); (P_SCHEME, s); (P_PATH, p); (P_AUTHORITY, hv)] : headers).
+      assert (E : format_h2_request_headers n false m s [] p f = q ++ normalize_h1_headers (hdel N_HOST f))
+        by (unfold format_h2_request_headers; rewrite HG; reflexivity).
+      rewrite E. unfold parse_h2_request_headers.
+      rewrite (split_prefix q _ [] eq_refl NP).
+      simpl. rewrite VM, VP. simpl.
+      destruct hv as [|h0 hv]; [reflexivity|]. rewrite PA by discriminate. reflexivity.
+    + set (q := [(P_METHOD, m); (P_SCHEME, s); (P_PATH, p)] : headers).
+      assert (E : format_h2_request_headers n false m s [] p f = q ++ normalize_h1_headers f)
+        by (unfold format_h2_request_headers; rewrite HG; reflexivity).
+      rewrite E. unfold parse_h2_request_headers.
+      rewrite (split_prefix q _ [] eq_refl NP).
+      simpl. rewrite VM, VP. reflexivity.
+  - set (q := [(P_METHOD, m); (P_SCHEME, s); (P_PATH, p); (P_AUTHORITY, a0 :: a)] : headers).
+    assert (E : format_h2_request_headers n false m s (a0 :: a) p f = q ++ normalize_h1_headers f) by reflexivity.
+    rewrite E. unfold parse_h2_request_headers.
+    rewrite (split_prefix q _ [] eq_refl NP).
+    simpl. rewrite VM, VP. simpl. rewrite PA by discriminate. reflexivity.
+Qed.
+
+(* ---------- upgrade direction, responses: the status code survives format_h2_response_headers + parse *)
+Definition status_fmt_ok (st : Z) : bool :=
+  match normalize_h1_headers [(P_STATUS, dec_of_Z st)] with
+  | [(n, v)] => bytes_eqb n P_STATUS && match py_int_ws v with Some z => Z.eqb z st | None => false end
+  | _ => false
+  end.
+
+Lemma status_fmt_sweep : forallb (fun k => status_fmt_ok (Z.of_nat k)) (seq 0 1000) = true.
+Proof. vm_compute. reflexivity. Qed.
+
+Lemma normalize_cons x f : normalize_h1_headers (x :: f) = normalize_h1_headers [x] ++ normalize_h1_headers f.
+Proof.
+  unfold normalize_h1_headers. cbn [map filter].
+  destruct (negb (mem (fst (strip (lower (fst x)), strip (snd x))) CONNECTION_HEADERS)); reflexivity.
+Qed.
+
+Theorem format_parse_response st f : (0 <= st <= 999)%Z ->
+  Forall (fun x => is_pseudo (fst x) = false) (normalize_h1_headers f) ->
+  parse_h2_response_headers (format_h2_response_headers true false st f) = Some (st, normalize_h1_headers f).
+Proof.
+  intros R NP. pose proof status_fmt_sweep as S. rewrite forallb_forall in S.
+  specialize (S (Z.to_nat st)). rewrite Z2Nat.id in S by lia. assert (K : status_fmt_ok st = true) by (apply S; apply in_seq; lia).
+  unfold format_h2_response_headers. rewrite normalize_cons. unfold status_fmt_ok in K.
+  destruct (normalize_h1_headers [(P_STATUS, dec_of_Z st)]) as [|[n v] [|]] eqn:E; try discriminate.
+  apply andb_true_iff in K as [K1 K2]. apply bytes_eqb_eq in K1. subst n.
+  destruct (py_int_ws v) as [z|] eqn:PI; [|discriminate]. apply Z.eqb_eq in K2. subst z.
+  set (q := [(P_STATUS, v)] : headers). unfold parse_h2_response_headers.
+  match goal with |- context [split_pseudo_headers (?a ++ _) _] => replace a with q by (symmetry; exact E) end.
+  rewrite (split_prefix q _ [] eq_refl NP). simpl. rewrite PI. reflexivity.
+Qed.
+
+(* ---------- witnesses of the known findings (the guards of the two main theorems cannot be dropped) *)
+Definition bs (l : list byte) : bytes := l.
+Definition W_GET : bytes := [x47;x45;x54].
+Definition W_HOST : bytes := [x65;x78;x61;x6d;x70;x6c;x65;x2e;x63;x6f;x6d].
+Definition W_REQ (extra : headers) : headers :=
+  [(P_METHOD, W_GET); (P_SCHEME, V_HTTP); (P_AUTHORITY, W_HOST); (P_PATH, [x2f])] ++ extra.
+Definition strict : ref_opts := mkOpts false false false.
+
+(* request-content-length-without-body: content-length 5 and END_STREAM on HEADERS *)
+Lemma request_length_witness :
+  exists out, down_request (fun _ => true) (W_REQ [(CONTENT_LENGTH, [x35])]) None None = OForward out false
+              /\ parse_requests strict 2 out = PErr Incomplete.
+Proof. eexists. split; vm_compute; reflexivity. Qed.
+
+(* trailers: Http1Client.send raises *)
+Lemma request_trailers_witness :
+  down_request (fun _ => true) (W_REQ []) (Some [x61]) (Some [([x78], [x31])]) = OCrashTrailers.
+Proof. vm_compute. reflexivity. Qed.
+
+(* body-after-bodiless-response: 204 with DATA: the reference reader is left with unread bytes *)
+Lemma response_bodiless_witness :
+  exists out c p, down_response W_GET [(P_STATUS, [x32;x30;x34])] (Some [x61;x62]) None = OForward out c
+              /\ parse_response strict W_GET out = POk (p, [x61;x62]).
+Proof. do 3 eexists. split; vm_compute; reflexivity. Qed.
+
+(* status-not-3-digits *)
+Lemma response_status_witness :
+  exists out c, down_response W_GET [(P_STATUS, [x39;x39;x39;x39;x39])] None None = OForward out c
+              /\ parse_response strict W_GET out = PErr Invalid.
+Proof. do 2 eexists. split; vm_compute; reflexivity. Qed.
+
+(* response-content-length-without-body *)
+Lemma response_length_witness :
+  exists out c, down_response W_GET [(P_STATUS, [x32;x30;x30]); (CONTENT_LENGTH, [x35])] None None = OForward out c
+              /\ parse_response strict W_GET out = PErr Incomplete.
+Proof. do 2 eexists. split; vm_compute; reflexivity. Qed.
+
+(* ---------- non-vacuity: a POST with two cookies, a body and no content-length satisfies every hypothesis *)
+Definition W_POST : bytes := [x50;x4f;x53;x54].
+Definition sample_block : headers :=
+  [(P_METHOD, W_POST); (P_SCHEME, V_HTTPS); (P_AUTHORITY, W_HOST); (P_PATH, [x2f;x61]);
+   (N_COOKIE, [x61;x3d;x31]); ([x78;x2d;x61], [x62]); (N_COOKIE, [x62;x3d;x32])].
+Definition sample_body : bytes := [x47;x45;x54;x20;x2f;x0d;x0a;x0d;x0a].
+
+Lemma sample_ok :
+  (exists out, down_request (fun _ => true) sample_block (Some sample_body) None = OForward out false
+     /\ contains CHUNKED out = true)
+  /\ length_guard None sample_block (Some sample_body) /\ cookie_guard sample_block.
+Proof.
+  split; [eexists; split; vm_compute; reflexivity|]. split; [intros X; discriminate | vm_compute; discriminate].
+Qed.
+
+(* ---------- what the written request means, in terms of the accepted header block *)
+Definition nonempty (b : bytes) : bool := match b with [] => false | _ => true end.
+
+Theorem down_request_semantics pa h body out c :
+  down_request pa h body None = OForward out c ->
+  exists r, parse_h2_request_headers pa h = Some r /\
+    (exists q, h = q ++ hq_fields r /\ Forall (fun x => is_pseudo (fst x) = true) q
+       /\ In (P_METHOD, hq_method r) q /\ In (P_SCHEME, hq_scheme r) q /\ In (P_PATH, hq_path r) q
+       /\ (hq_authority r = [] \/ In (P_AUTHORITY, hq_authority r) q)) /\
+    forall es, let fs := h1_fields (strip_r r) es in
+      field_values N_HOST fs
+        = (if negb (hcontains N_HOST_CAP (hq_fields r)) && nonempty (hq_authority r)
+           then [hq_authority r] else field_values N_HOST (hq_fields r))
+      /\ field_values N_COOKIE fs
+        = match get_all N_COOKIE (hq_fields r) with (_ :: _ :: _) as l => [join_semi l] | l => l end
+      /\ forall k, k <> N_HOST -> k <> N_COOKIE -> k <> TRANSFER_ENCODING -> k <> N_EXPECT ->
+           filter (name_ci k) fs = filter (name_ci k) (hq_fields r).
+Proof.
+  unfold down_request. intros H.
+  destruct (h2_validate false false h) eqn:V; [|discriminate]. cbn [negb] in H.
+  destruct (h2_expected_length None h); [|discriminate].
+  destruct (negb _); [discriminate|]. cbn [negb] in H.
+  destruct (parse_h2_request_headers pa h) as [r|] eqn:P; [|discriminate].
+  destruct (validate_request_transparent r) eqn:VR; try discriminate.
+  exists r. split; [reflexivity|].
+  destruct (parse_req_spec pa h r P) as (q & Eh & Fq & IM & IS & IP & IA & _ & _).
+  split; [exists q; repeat split; assumption|].
+  pose proof (h2_validate_all _ _ _ V) as VA.
+  assert (VAf : Forall (fun f => h2_name_ok (fst f) = true /\ h2_value_ok (snd f) = true /\ h2_field_ok f = true) (hq_fields r)).
+  { rewrite Eh in VA. apply Forall_app in VA. tauto. }
+  pose proof (validated_no_te _ VAf) as NoTE.
+  assert (AuthOk : hq_authority r = [] \/ h2_value_ok (hq_authority r) = true).
+  { destruct IA as [X|X]; [left; exact X|right]. rewrite Forall_forall in VA.
+    assert (I : In (P_AUTHORITY, hq_authority r) h) by (rewrite Eh; apply in_or_app; left; exact X).
+    destruct (VA _ I) as (_ & Y & _). exact Y. }
+  assert (NoTE' : get_all TRANSFER_ENCODING (hq_fields (strip_r r)) = []).
+  { rewrite get_all_filter in *. change (lower TRANSFER_ENCODING) with TRANSFER_ENCODING in *.
+    cbn [strip_r hq_fields]. rewrite strip_expect_filter by discriminate. exact NoTE. }
+  intros es. cbv zeta. split; [|split].
+  - rewrite (F_host (strip_r r) es NoTE' AuthOk). cbn [strip_r hq_fields hq_authority].
+    unfold hcontains. rewrite !field_values_filter, !get_all_filter. change (lower N_HOST_CAP) with N_HOST.
+    rewrite !strip_expect_filter by discriminate. reflexivity.
+  - rewrite (F_cookie (strip_r r) es NoTE'). cbn [strip_r hq_fields]. rewrite !get_all_filter.
+    change (lower N_COOKIE) with N_COOKIE. rewrite strip_expect_filter by discriminate. reflexivity.
+  - intros k N1 N2 N3 N4. rewrite (F_other (strip_r r) es NoTE' k N1 N2 N3). cbn [strip_r hq_fields].
+    apply strip_expect_filter. exact N4.
+Qed.
